@@ -2,12 +2,17 @@
 use crate::engine::{Family, Tier, WorkerHooks};
 
 pub mod c02;
+pub mod c03;
+pub mod c09;
 
-pub const ALL: &[&str] = &["C02"];
+pub const ALL: &[&str] = &["C02", "C03", "C06", "C09"];
 
 pub fn families(prop: &str, tier: Tier, variant: &str) -> Vec<Family> {
     match prop {
         "C02" => c02::families(tier, variant, c02::Mode::AcceptReject),
+        "C03" => c03::families(tier, variant, c03::Mode::Tree),
+        "C09" => c09::families(tier, variant),
+        "C06" => c03::families(tier, variant, c03::Mode::RoundTrip),
         _ => vec![],
     }
 }
